@@ -4,7 +4,7 @@
 (*                                                                                      *)
 (*  e = "disp"     one event dispatched to a recording subclass of a real handler        *)
 (*     hk      "base" | "pattern" | "regex"            cls   event class name             *)
-(*     igndir, cs, strict                              (strict: reading of "its paths")   *)
+(*     igndir, cs                                                                         *)
 (*     rows    <<dest row, src row>>, each [ne |-> path non-empty, inc |-> <<BOOLEAN..>>, *)
 (*             exc |-> <<BOOLEAN..>>]: does this path match the k-th include / exclude    *)
 (*             pattern (regex), computed by the INDEPENDENT reference: pathlib            *)
@@ -22,8 +22,8 @@
 (*                                                                                      *)
 (* The monitors are written from the property text.  "Its paths": the non-empty ones of   *)
 (* src_path / dest_path.  The empty dest_path of an event that is not a move is a          *)
-(* placeholder; with strict = FALSE a decision is also accepted if it is the rule's        *)
-(* decision when empty placeholders are counted as paths (Handlers.tla, D13).              *)
+(* placeholder, not a path: a decision that hinges on it is a violation (Handlers.tla,     *)
+(* FixEmptyDest; repaired in /repo 4264f5e).                                               *)
 EXTENDS TraceUtil
 
 VARIABLES tid, l, viol
@@ -46,10 +46,8 @@ SomeTrue(s) == \E k \in 1..Len(s) : s[k]
 \* one path passes the pattern rule: matches an include pattern and no exclude pattern
 Passes(r) == SomeTrue(r.inc) /\ ~SomeTrue(r.exc)
 
-\* the path sets that may be meant by "its paths": every non-empty path, and any of the empty placeholders unless strict
-PathSets(c) == LET all == 1..Len(c.rows)
-                   real == {p \in all : c.rows[p].ne}
-               IN  IF c.strict THEN {real} ELSE {S \in SUBSET all : real \subseteq S}
+\* "its paths": the non-empty ones
+RealPaths(c) == {p \in 1..Len(c.rows) : c.rows[p].ne}
 Ignored(c) == c.igndir /\ IsDir(c.cls)
 PatternRule(c, S) == ~Ignored(c) /\ \E p \in S : Passes(c.rows[p])
 RegexRule(c, S) == ~Ignored(c) /\ ~(\E p \in S : SomeTrue(c.rows[p].exc)) /\ (\E p \in S : SomeTrue(c.rows[p].inc))
@@ -61,10 +59,10 @@ P_C15_AnyThenTyped(c) ==
     /\ c.hk = "base" => (c.calls # <<>> /\ c.raised = "")
 P_C15_PatternDecision(c) ==
     c.hk = "pattern" => /\ c.raised = ""
-                        /\ \E S \in PathSets(c) : (c.calls # <<>>) <=> PatternRule(c, S)
+                        /\ (c.calls # <<>>) <=> PatternRule(c, RealPaths(c))
 P_C15_RegexDecision(c) ==
     c.hk = "regex" => /\ c.raised = ""
-                      /\ \E S \in PathSets(c) : (c.calls # <<>>) <=> RegexRule(c, S)
+                      /\ (c.calls # <<>>) <=> RegexRule(c, RealPaths(c))
 
 RECURSIVE IsSubSeq(_, _)
 IsSubSeq(a, b) == IF a = <<>> THEN TRUE
